@@ -856,7 +856,12 @@ def run_c12_case(seed, case, stats, tmp):
     try:
         for mode, jobs in modes:
             out = os.path.join(case_dir, 'out_' + mode.replace('=', ''))
-            os.makedirs(out)
+            if jobs is None or jobs == 1 or case % 2:
+                os.makedirs(out)
+            else:
+                # the output directory does not exist yet: every worker that finishes reading its file creates it, several at
+                # about the same time (a check-then-create sequence loses that race for valid inputs)
+                out = os.path.join(out, 'new', 'tree')
             a = args()
             signal.alarm(60)
             try:
